@@ -143,6 +143,7 @@ func runScenario(s Scenario, dir string) (res scenResult) {
 				prob("unexpected_error", fmt.Sprintf("blind-write Update of writer %d returned %v", id, err))
 				return
 			}
+			progress.Add(1)
 			mu.Lock()
 			for k, v := range vals {
 				last[k] = v
@@ -342,11 +343,18 @@ func runScenario(s Scenario, dir string) (res scenResult) {
 	return
 }
 
+// progress is bumped by every workload of this package whenever a call of the engine returned
+// (a commit, a refusal, a read-only transaction); await uses it to tell slow from stuck.
+var progress atomic.Int64
+
 // await waits for done. Every 20 s it takes a goroutine dump: a dump in which nothing of the
-// engine or the workload can run is a deadlock; after 3 minutes of slow progress it gives up
-// (inconclusive, never a violation).
+// engine or the workload can run is a deadlock. As long as calls keep returning it keeps
+// waiting (a loaded machine is not a finding); after 3 minutes without a single returned call
+// while goroutines are runnable - or 40 minutes in all - it gives up (inconclusive, never a
+// violation).
 func await(done <-chan struct{}, what string) *problem {
-	for i := 0; i < 9; i++ {
+	last, idle := progress.Load(), 0
+	for i := 0; i < 120 && idle < 9; i++ {
 		select {
 		case <-done:
 			return nil
@@ -354,9 +362,14 @@ func await(done <-chan struct{}, what string) *problem {
 			if dump := goroutineDump(); deadlocked(dump) {
 				return &problem{"deadlock", what + " and nothing can run:\n" + trimDump(dump)}
 			}
+			if now := progress.Load(); now != last {
+				last, idle = now, 0
+			} else {
+				idle++
+			}
 		}
 	}
-	return &problem{"inconclusive_slow", what + " within 3 minutes but goroutines are runnable"}
+	return &problem{"inconclusive_slow", what + " (no call returned for 3 minutes, or 40 minutes passed) but goroutines are runnable"}
 }
 
 func pad(n int) string {
